@@ -28,11 +28,17 @@ func (in *Interp) atomCode(s string) uint64 {
 		if in.lowerUsed {
 			in.addLowerFact("")
 		}
+		if in.rankUsed {
+			in.addRankFact("")
+		}
 	}
 	in.atomCodes[s] = c
 	in.atomNames = append(in.atomNames, s)
 	if in.lowerUsed {
 		in.addLowerFact(s)
+	}
+	if in.rankUsed {
+		in.addRankFact(s)
 	}
 	return c
 }
@@ -274,6 +280,20 @@ func (in *Interp) symStrBinop(op token.Token, a, b Value) Value {
 				alts = append(alts, in.B.And(prefix, in.B.Bool(len(x) <= len(y))))
 			}
 			return in.B.Or(alts...)
+		}
+	}
+	if op == token.LSS || op == token.LEQ || op == token.GTR || op == token.GEQ {
+		isAtom := func(v Value) bool {
+			switch x := v.(type) {
+			case string:
+				return true
+			case *SymStr:
+				return x.Atom != nil
+			}
+			return false
+		}
+		if isAtom(a) && isAtom(b) {
+			return in.atomOrder(op, a, b)
 		}
 	}
 	in.unmodelled("string operator " + op.String() + " on a symbolic string")
